@@ -2,6 +2,8 @@ SPECIFICATION Spec
 CONSTANTS
   CBug = "none"
   NameOrder <- NameOrderDef
+  AcrhOK <- AcrhOKElems
+  AcrhEcho <- AcrhEchoElems
   CheckPairs = FALSE
 INVARIANTS BrowserVerdictIsMeaning HeadersWellFormed DebugOnlyDiagnostics VarySufficient VaryPreserved DispatchRule OnlyDocumentedEdits NoDisclosure
 CHECK_DEADLOCK FALSE
